@@ -111,3 +111,90 @@ pub fn trace_run(ga: &GA, iq: &Arc<IndexedQuery>, args: &Arc<BTreeMap<Arc<str>, 
     }));
     r.unwrap_or_else(|p| json!({"t":"panic","err": panic_msg(p)}))
 }
+
+// ------------------------------------------------------------------------------------------------
+// The repository's own recorded traces (trustfall_core/test_data/tests/valid_queries/*.trace.ron, numbers adapter):
+// exported for validation WITHOUT a data source. Vertices become small integers (in order of first appearance); every
+// YieldInto event carries the outcome the recorded adapter produced for that context; the start vertices are listed.
+// ------------------------------------------------------------------------------------------------
+use trustfall_core::{numbers_interpreter::NumbersVertex, test_types::TestInterpreterOutputTrace};
+
+struct Interner { ids: BTreeMap<String, u64> }
+impl Interner {
+    fn id<T: serde::Serialize>(&mut self, v: &T) -> u64 { let k = to_value(v).to_string(); let n = self.ids.len() as u64 + 1; *self.ids.entry(k).or_insert(n) }
+}
+/// replaces every vertex inside a serialized DataContext by its interned id
+fn ctx_json_interned(ctx: &trustfall_core::interpreter::DataContext<NumbersVertex>, it: &mut Interner) -> Value {
+    let mapped = ctx.clone().map(&mut |v| crate::graph::V(it.id(&v) as u32));
+    ctx_json(&mapped)
+}
+
+pub fn corpus_trace(path: &str) -> Value {
+    let text = match std::fs::read_to_string(path) { Ok(t) => t, Err(e) => return json!({"t":"ioerr","err": e.to_string()}) };
+    let r = panic::catch_unwind(AssertUnwindSafe(move || {
+        let t: TestInterpreterOutputTrace<NumbersVertex> = ron::from_str(&text).map_err(|e| format!("ron: {e}"))?;
+        let trace = t.trace;
+        let iq = IndexedQuery::try_from(trace.ir_query.clone()).map_err(|e| format!("index: {e:?}"))?;
+        let mut it = Interner { ids: BTreeMap::new() };
+        let mut events: Vec<Value> = vec![];
+        let mut call_ord: BTreeMap<Opid, usize> = BTreeMap::new();
+        let mut call_fn: BTreeMap<usize, String> = BTreeMap::new();
+        let mut outer_ord: BTreeMap<Opid, usize> = BTreeMap::new();
+        let mut starts: Vec<u64> = vec![];
+        // per call: indices (into `events`) of YieldInto events still waiting for their outcome (order-preserving adapters: FIFO)
+        let mut pending: BTreeMap<usize, std::collections::VecDeque<usize>> = BTreeMap::new();
+        let mut outer_event: BTreeMap<usize, usize> = BTreeMap::new();   // ny -> index of the YieldInto event whose outcome is that neighbour list
+        for (opid, op) in trace.ops.iter() {
+            let parent_call = op.parent_opid.and_then(|p| call_ord.get(&p).cloned()).unwrap_or(0);
+            let parent_outer = op.parent_opid.and_then(|p| outer_ord.get(&p).cloned()).unwrap_or(0);
+            let mut e;
+            match &op.content {
+                TraceOpContent::Call(fc) => {
+                    let n = call_ord.len() + 1; call_ord.insert(*opid, n);
+                    e = ev("Call"); e["call"] = json!(n);
+                    match fc {
+                        FunctionCall::ResolveStartingVertices(vid) => { e["fn"] = json!("start"); e["vid"] = json!(idn(vid)); }
+                        FunctionCall::ResolveProperty(vid, ty, p) => { e["fn"] = json!("prop"); e["vid"] = json!(idn(vid)); e["ty"] = json!(ty.as_ref()); e["field"] = json!(p.as_ref()); }
+                        FunctionCall::ResolveNeighbors(vid, ty, eid) => { e["fn"] = json!("nbrs"); e["vid"] = json!(idn(vid)); e["ty"] = json!(ty.as_ref()); e["eid"] = json!(idn(eid)); }
+                        FunctionCall::ResolveCoercion(vid, ty, to) => { e["fn"] = json!("coerce"); e["vid"] = json!(idn(vid)); e["ty"] = json!(ty.as_ref()); e["field"] = json!(to.as_ref()); }
+                    }
+                    call_fn.insert(n, e["fn"].as_str().unwrap().to_string());
+                }
+                TraceOpContent::AdvanceInputIterator => { e = ev("Advance"); e["call"] = json!(parent_call); }
+                TraceOpContent::YieldInto(ctx) => {
+                    e = ev("YieldInto"); e["call"] = json!(parent_call); e["ctx"] = ctx_json_interned(ctx, &mut it);
+                    e["out"] = json!({"t":"none"});
+                    pending.entry(parent_call).or_default().push_back(events.len());
+                }
+                TraceOpContent::InputIteratorExhausted => { e = ev("InExh"); e["call"] = json!(parent_call); }
+                TraceOpContent::OutputIteratorExhausted => { if parent_outer > 0 { e = ev("NbrExh"); e["ny"] = json!(parent_outer); } else { e = ev("OutExh"); e["call"] = json!(parent_call); } }
+                TraceOpContent::YieldFrom(y) => match y {
+                    YieldValue::ResolveStartingVertices(v) => { let id = it.id(v); starts.push(id); e = ev("YieldFrom"); e["call"] = json!(parent_call); e["fn"] = json!("start"); e["v"] = json!({"t":"val","v": from_fv(&FieldValue::Int64(id as i64))}); }
+                    YieldValue::ResolveProperty(ctx, val) => {
+                        e = ev("YieldFrom"); e["call"] = json!(parent_call); e["fn"] = json!("prop"); e["ctx"] = ctx_json_interned(ctx, &mut it); e["v"] = json!({"t":"val","v": from_fv(val)});
+                        if let Some(k) = pending.entry(parent_call).or_default().pop_front() { events[k]["out"] = e["v"].clone(); }
+                    }
+                    YieldValue::ResolveCoercion(ctx, b) => {
+                        e = ev("YieldFrom"); e["call"] = json!(parent_call); e["fn"] = json!("coerce"); e["ctx"] = ctx_json_interned(ctx, &mut it); e["v"] = json!({"t":"bool","b": b});
+                        if let Some(k) = pending.entry(parent_call).or_default().pop_front() { events[k]["out"] = e["v"].clone(); }
+                    }
+                    YieldValue::ResolveNeighborsOuter(ctx) => {
+                        let n = outer_ord.len() + 1; outer_ord.insert(*opid, n);
+                        e = ev("YieldFrom"); e["call"] = json!(parent_call); e["fn"] = json!("nbrs"); e["ctx"] = ctx_json_interned(ctx, &mut it); e["ny"] = json!(n);
+                        if let Some(k) = pending.entry(parent_call).or_default().pop_front() { events[k]["out"] = json!({"t":"nbrs","ids": [], "ny": 0}); outer_event.insert(n, k); }
+                    }
+                    YieldValue::ResolveNeighborsInner(pos, v) => {
+                        let id = it.id(v);
+                        e = ev("NbrInner"); e["ny"] = json!(parent_outer); e["pos"] = json!(pos); e["v"] = json!({"t":"val","v": from_fv(&FieldValue::Int64(id as i64))});
+                        if let Some(k) = outer_event.get(&parent_outer) { events[*k]["out"]["ids"].as_array_mut().unwrap().push(json!(id)); }
+                    }
+                },
+                TraceOpContent::ProduceQueryResult(row) => { e = ev("Row"); e["ctx"] = row_json(row); }
+            }
+            events.push(e);
+        }
+        let args: Value = Value::Object(trace.arguments.iter().map(|(k, v)| (k.clone(), from_fv(v))).collect());
+        Ok::<Value, String>(json!({"t":"ok","ir": crate::irx::ir_json(&iq), "events": events, "starts": starts, "args": args, "vertices": it.ids.len()}))
+    }));
+    match r { Ok(Ok(v)) => v, Ok(Err(e)) => json!({"t":"err","err": e}), Err(p) => json!({"t":"panic","err": panic_msg(p)}) }
+}
